@@ -28,10 +28,10 @@ SENTINEL_PRE = b"PRE-EXISTING FILE: must never change\n"
 SENTINEL_VICTIM = b"VICTIM FILE reached through a symlink: must never change\n"
 SENTINEL_ENV = b"FILE CREATED BY ANOTHER PROCESS: must never change\n"
 RACE_ACTIONS = ["file", "dir", "symlink_victim", "symlink_dangling", "rm_parent", "chmod_parent_ro"]
-FILE_STATES = ["new", "new_fresh", "new_rel", "new_dotdot", "existing", "directory", "missing_parent", "ro_parent", "dangling",
+FILE_STATES = ["new", "new_fresh", "new_rel", "new_dotdot", "via_linkdir", "tilde", "existing", "directory", "missing_parent", "ro_parent", "dangling",
                "link2file", "trailing_slash", "empty"]
 IO_FAULTS = ["ENOSPC", "EIO_write", "EIO_close", "EMFILE_open", "EACCES_open", "EPIPE_stdout", "EIO_stdout",
-             "interrupt"]
+             "EPIPE_flush", "interrupt"]
 
 
 def _words():
@@ -40,7 +40,8 @@ def _words():
 
 
 def file_arg(state):
-    return {"new": "/simfs/out/wallet.json", "new_fresh": "/simfs/fresh/wallet.json", "new_rel": "wallet.json", "new_dotdot": "/simfs/out/dir/../w2.json",
+    return {"new": "/simfs/out/wallet.json", "new_fresh": "/simfs/fresh/wallet.json", "new_rel": "wallet.json",
+            "via_linkdir": "/simfs/out/linkdir/w4.json", "tilde": "~/w5.json", "new_dotdot": "/simfs/out/dir/../w2.json",
             "existing": "/simfs/out/existing.json", "directory": "/simfs/out/dir",
             "missing_parent": "/simfs/out/nope/w.json", "ro_parent": "/simfs/ro/w.json",
             "dangling": "/simfs/out/dangling", "link2file": "/simfs/out/link2file",
@@ -178,11 +179,11 @@ def gen_plan(prop, seed, tier, idx):
     fstate = None
     if use_file:
         if only_valid:
-            fstate = rng.choice(["new", "new_fresh", "new_rel", "new_dotdot"] +
+            fstate = rng.choice(["new", "new_fresh", "new_rel", "new_dotdot", "via_linkdir"] +
                                 (["dangling", "new_fresh", "new_fresh"] if batch == "race" else []))
         else:
             fstate = rng.choice(FILE_STATES)
-        if fstate not in ("new", "new_fresh", "new_rel", "new_dotdot", "dangling"):
+        if fstate not in ("new", "new_fresh", "new_rel", "new_dotdot", "via_linkdir", "dangling"):
             invalid.append("file:" + fstate)
         argv += [rng.choice(["-f", "--file"]), file_arg(fstate)]
     req["file_state"] = fstate
@@ -261,8 +262,8 @@ def _finish(prop, seed, batch, req, argv, invalid, rng):
     elif batch == "io":
         f = rng.choice(IO_FAULTS)
         if req.get("file_state") is None and f in ("ENOSPC", "EIO_write", "EIO_close", "EMFILE_open", "EACCES_open"):
-            f = rng.choice(["EPIPE_stdout", "EIO_stdout", "interrupt"])
-        if req.get("file_state") is not None and f in ("EPIPE_stdout", "EIO_stdout"):
+            f = rng.choice(["EPIPE_stdout", "EPIPE_stdout", "EIO_stdout", "EPIPE_flush", "interrupt"])
+        if req.get("file_state") is not None and f in ("EPIPE_stdout", "EIO_stdout", "EPIPE_flush"):
             f = rng.choice(["ENOSPC", "EIO_write", "EIO_close", "EMFILE_open", "EACCES_open", "interrupt"])
         ent = {"kind": "io", "fault": f}
         if f == "ENOSPC":
@@ -284,6 +285,12 @@ class _Stream(io.TextIOBase):
         self.chunks = []
         self.inj = inj
         self.writes = 0
+        self.flushes = 0
+        self.redirected = None       # set when the CLI dup2()s another descriptor over this stream
+
+    def fileno(self):
+        from sim import vfs as _v
+        return _v.FD_STDOUT if self.name_ == "stdout" else _v.FD_STDERR
 
     def writable(self):
         return True
@@ -298,6 +305,10 @@ class _Stream(io.TextIOBase):
     def write(self, s):
         if not isinstance(s, str):
             raise TypeError("write() argument must be str")
+        if self.redirected is not None:
+            if self.redirected == "closed":
+                raise ValueError("I/O operation on closed file.")
+            return len(s)                # goes to whatever was dup2()ed over the stream, not to the reader
         if self.inj is not None:
             self.inj.stream_write(self, s)
         self.chunks.append(s)
@@ -305,6 +316,9 @@ class _Stream(io.TextIOBase):
         return len(s)
 
     def flush(self):
+        if self.redirected is None and self.inj is not None:
+            self.inj.stream_flush(self)
+        self.flushes += 1
         return None
 
     def getvalue(self):
@@ -399,6 +413,15 @@ class _Injector:
                     self.fired.append({"kind": "io", "fault": ft, "before": name})
                     raise PermissionError(errno.EACCES, "Permission denied (simulated)", str(path))
 
+    def stream_flush(self, stream):
+        if stream.name_ != "stdout":
+            return
+        self.boundary("stdout.flush", None)
+        for f in self.plan["faults"]:
+            if f["kind"] == "io" and f["fault"] == "EPIPE_flush" and stream.flushes == 0:
+                self.fired.append({"kind": "io", "fault": "EPIPE_flush", "before": "stdout.flush"})
+                raise BrokenPipeError(errno.EPIPE, "Broken pipe (simulated)")
+
     def stream_write(self, stream, s):
         if stream.name_ != "stdout":
             return
@@ -423,13 +446,20 @@ def build_fs(vfs):
     vfs.put_file("/simfs/victim/secret.txt", SENTINEL_VICTIM)
     vfs.put_link("/simfs/out/dangling", "/simfs/out/nowhere.json")
     vfs.put_link("/simfs/out/link2file", "/simfs/victim/secret.txt")
+    vfs.mkdir_p("/simfs/realdir")
+    vfs.put_link("/simfs/out/linkdir", "/simfs/realdir")
+    vfs.mkdir_p("/simfs/home")
 
 
 def run_cli(argv, vfs, inj, device):
     """Run main() in-process; map the outcome to the status the interpreter would return."""
     import btc_hd_wallet.__main__ as cli
     out, err = _Stream("stdout", inj), _Stream("stderr", None)
+    from sim import vfs as _v
+    vfs.std_streams = {_v.FD_STDOUT: out, _v.FD_STDERR: err}
     saved = (sys.argv, sys.stdout, sys.stderr)
+    saved_home = os.environ.get("HOME")
+    os.environ["HOME"] = "/simfs/home"           # a `~` expansion must stay inside the simulated file system
     sys.argv = [cli.__file__] + list(argv)      # what `python -m btc_hd_wallet` puts in argv[0]
     sys.stdout, sys.stderr = out, err
     vfs.actor = "cli"
@@ -461,6 +491,10 @@ def run_cli(argv, vfs, inj, device):
             exc = type(e).__name__
     finally:
         sys.argv, sys.stdout, sys.stderr = saved
+        if saved_home is None:
+            os.environ.pop("HOME", None)
+        else:
+            os.environ["HOME"] = saved_home
         vfs.actor = "post"
         vfs.active = False
         device.tag = prev_tag
@@ -540,7 +574,8 @@ def _run_child(plan):
         twin = None
         twin_exc = None
         need_twin = req.get("command") is not None and req.get("help") is None and \
-            (status == 0 or new_files or out.strip())
+            (status == 0 or new_files or out.strip() or
+             (prop == "C15" and req["paranoia"] and not plan["expected_invalid"]))
         if need_twin:
             try:
                 full, tnet, account, interval = api_twin(req, device, plan["device_key"])
@@ -630,9 +665,11 @@ def _run_child(plan):
                                  rows=[g[0] for g in doc.get("BIP44", {}).get("groups", [])][:4]))
     else:  # C15
         if req["paranoia"] and twin is not None:
-            strings, scalars = cm.secrets_of(twin["full"])
+            strings, scalars = cm.secrets_of(twin["full"], {w: i for i, w in enumerate(words)})
             channels = [("stdout", out)] + [("file:" + p, d.decode("utf-8", "replace")) for p, d in sorted(new_files.items())]
-            if status == 0:
+            # stderr: always for served runs; for failed runs only when every argument was valid (the failure is
+            # an injected I/O fault / race, so no legitimate message can be echoing the user's own input)
+            if status == 0 or not plan["expected_invalid"]:
                 channels.append(("stderr", err))
             for chname, text in channels:
                 for kind, what in cm.scan_for_secrets(text, strings, scalars, words_set):
@@ -725,9 +762,10 @@ class CliSim(Simulator):
                 "expected_invalid": [], "faults": [], "device_key": "probe"}
         r = _run_child(plan)
         calls = [c[0] for c in r["facts"]["calls"]]
-        for need in ("stat", "access", "open", "write", "close"):
-            if need not in calls:
-                raise core.HarnessError("VFS seam dead: CLI made no %s call through the seam (%r)" % (need, calls))
+        # (which calls the CLI makes is its own business - a repair may drop os.access or use os.open; the seam is
+        #  alive if the validator's look-ups and the creation of the file went through it)
+        if not calls or not any(c in calls for c in ("open", "rename", "link")) or not r["facts"]["new_files"]:
+            raise core.HarnessError("VFS seam dead: the CLI's file did not appear in the simulated file system (%r)" % calls)
         if r["stats"]["entropy_requests"] < 2:
             raise core.HarnessError("entropy device seam dead for `new`")
         if r["facts"]["status"] != 0:
@@ -781,8 +819,9 @@ class CliSim(Simulator):
                     break
                 root = os.path.join(tmp, "r%d" % idx)
                 os.makedirs(os.path.join(root, "simfs", "cwd"))
-                for d in ("out/dir", "victim", "fresh"):
+                for d in ("out/dir", "victim", "fresh", "realdir", "home"):
                     os.makedirs(os.path.join(root, "simfs", d))
+                os.symlink(os.path.join(root, "simfs/realdir"), os.path.join(root, "simfs/out/linkdir"))
                 with open(os.path.join(root, "simfs/out/existing.json"), "wb") as f:
                     f.write(SENTINEL_PRE)
                 with open(os.path.join(root, "simfs/victim/secret.txt"), "wb") as f:
@@ -790,7 +829,8 @@ class CliSim(Simulator):
                 os.symlink(os.path.join(root, "simfs/out/nowhere.json"), os.path.join(root, "simfs/out/dangling"))
                 os.symlink(os.path.join(root, "simfs/victim/secret.txt"), os.path.join(root, "simfs/out/link2file"))
                 argv = [a.replace("/simfs/", root + "/simfs/") if a.startswith("/simfs/") else a for a in plan["argv"]]
-                env = dict(os.environ, PYTHONPATH=core.REPO, PYTHONDONTWRITEBYTECODE="1")
+                env = dict(os.environ, PYTHONPATH=core.REPO, PYTHONDONTWRITEBYTECODE="1",
+                           HOME=os.path.join(root, "simfs/home"))
                 r = subprocess.run([sys.executable, "-m", "btc_hd_wallet"] + argv, cwd=os.path.join(root, "simfs/cwd"),
                                    env=env, capture_output=True, text=True, timeout=300)
                 real_files = {}
@@ -923,7 +963,7 @@ class CliSim(Simulator):
             if not any(k.startswith("race|file|before:open") for k in cells):
                 out.append("no file appeared between the validator and open()")
             for f in IO_FAULTS:
-                if f != "interrupt" and not cells.get("io|" + f):
+                if f not in ("interrupt", "EPIPE_flush") and not cells.get("io|" + f):
                     out.append("I/O fault %s never fired" % f)
             if not any(k.startswith("interrupt|") for k in cells):
                 out.append("interrupt never delivered")
